@@ -144,6 +144,13 @@ theorem sig_created_required (body : Bytes) (s : PgpSig.Sig) (h : PgpSig.parsePa
   obtain ⟨_, _, _, _, _, _, _, _, hh⟩ := Lemmas.PgpSig.parse_head _ body s h
   exact hh.2.2.2.2
 
+/-- NO FUEL RUNS OUT: an embedded signature is the content of a subpacket of the signature that carries it, hence strictly
+    shorter; with more fuel than bytes the parse does not depend on the fuel, so the bound `body.length + 1` that
+    `parsePacket` passes is never what ends it (and the Go recursion is bounded by the input length) -/
+theorem sig_nesting_fuel (body : Bytes) (f : Nat) (hf : body.length < f) :
+    PgpSig.parse f body = PgpSig.parsePacket body :=
+  Lemmas.PgpSig.parse_fuel body.length body f (body.length + 1) (Nat.le_refl _) hf (Nat.lt_succ_self _)
+
 /-- CRITICAL BIT: a subpacket of a type the reader does not know is ignored when it is not critical and makes the
     signature unsupported when it is (RFC 4880 §5.2.3.1) -/
 theorem sig_unknown_subpacket (emb : Bytes → PgpSig.R PgpSig.Sig) (f : PgpSig.Fields) (isHashed : Bool) (typ : Nat) (d : Bytes)
